@@ -18,7 +18,7 @@ import (
 // draws (seeded) random large multi-signature accounts and, for each, signature sequences around the threshold:
 // a minimal authorising subset, the same with one signer removed, with one signer replaced by a repetition of
 // another (both encodings), padded with foreign / own-key signatures, with a field changed after signing, and with
-// a (plain or multi-signature) gas payer.  Every case goes through exactly the same Offer / Validate code as the
+// a (plain or multi-signature) gas payer - another account or the large account itself.  Every case goes through exactly the same Offer / Validate code as the
 // replayed TLC cases and is validated by the same monitor (TraceAuth.tla).
 func init() { engine.RegisterDriver("auth-rand", randDriver) }
 
@@ -48,7 +48,7 @@ func sigsStr(xs []sg) string {
 }
 
 func caseValue(cfg []int, kind string, sigs []sg, f, pay string, pcfg []int, psigs []sg) tla.Value {
-	return tla.MustParse(fmt.Sprintf(`[cfg |-> %s, kind |-> "%s", sigs |-> %s, f |-> "%s", pay |-> "%s", pcfg |-> %s, psigs |-> %s, box |-> "none", ncfg |-> <<>>]`,
+	return tla.MustParse(fmt.Sprintf(`[cfg |-> %s, kind |-> "%s", sigs |-> %s, f |-> "%s", pay |-> "%s", pcfg |-> %s, psigs |-> %s, box |-> "none", ncfg |-> <<>>, label |-> "true"]`,
 		seqStr(cfg), kind, sigsStr(sigs), f, pay, seqStr(pcfg), sigsStr(psigs)))
 }
 
@@ -230,6 +230,13 @@ func randDriver(args []string) error {
 			o[i].old = true
 		}
 		do(caseValue(cfg, "transfer", o, []string{"gasPrice", "gasLimit", "sigs"}[rng.Intn(3)], "payer", pc, ps))
+		// the account reimburses itself (payer signatures by its own signers): honest; gas terms changed after everybody signed as
+		// sender and as payer; the payer side one signer short
+		do(caseValue(cfg, "transfer", min, "none", "own", cfg, min))
+		do(caseValue(cfg, "transfer", o, []string{"gasPrice", "gasLimit"}[rng.Intn(2)], "own", cfg, o))
+		if len(min) > 1 {
+			do(caseValue(cfg, "transfer", min, "none", "own", cfg, min[1:]))
+		}
 	}
 	return nil
 }
